@@ -5,7 +5,8 @@
 // Boundary: the REAL app (harness/fullapp_harness_test.go).  User messages
 // (MsgAddLightNodeClientLicense, MsgRegisterLightNodeClient, MsgAuthLightNodeClient,
 // MsgSetLegacyLightNodeClients, bank MsgSend, feegrant MsgGrantAllowance) are signed
-// transactions that pass the real ante chain and msg router, one per block.  A sale is
+// transactions that pass the real ante chain and msg router, one per block — with ONE message each, or (op `tx`,
+// c18_tx_test.go) with several messages of several creators / signers, bare or inside authz.MsgExec.  A sale is
 // a MsgLightNodeSaleClaim signed and delivered by the (single, 100 % power) validator,
 // reported from either of TWO active bridge chains (sale contracts are authorised per
 // chain) and carrying any contract address string (the authorised one, another one, one
@@ -461,6 +462,8 @@ type c18Op struct {
 	contract        int      // sale: code of the claim's smart_contract_address string
 	pairs           [][2]int // setcontracts: (chain, contract string code) records in proposal order
 	list            []int
+	msgs            []c18Op // tx: the messages of ONE transaction, in order (see c18_tx_test.go)
+	wrap            int     // message of a tx: number of authz.MsgExec wrappers (grantee = the declared signer) around it
 }
 
 func (c *c18Case) at(t int64) { c.e.fa.NextTime = time.Unix(t, 0).UTC() }
@@ -641,6 +644,8 @@ func (c *c18Case) exec(op c18Op) (string, string) {
 			c.e.t.Fatal(err)
 		}
 		return line, c18Res(fa.DeliverTx(c.accts[op.signer], msg))
+	case "tx":
+		return c.execTx(op)
 	}
 	c.e.t.Fatalf("unknown op %q", op.kind)
 	return "", ""
@@ -712,6 +717,13 @@ func (c *c18Case) do(op c18Op) string {
 	c.record(op, line, res, c.observe())
 	if op.kind == "activate" && res == "ok" {
 		c.probes(op.creator, c.prev)
+	}
+	if op.kind == "tx" && res == "ok" {
+		for _, m := range op.msgs {
+			if m.kind == "activate" {
+				c.probes(m.creator, c.prev)
+			}
+		}
 	}
 	return res
 }
@@ -813,7 +825,7 @@ func (c *c18Case) monitors(op c18Op, line, res string, prev, cur *c18Obs) {
 			c.hit("activate_once", fmt.Sprintf("vesting account %d changed %s -> %s by `%s`", i, prev.acc[i], cur.acc[i], line))
 		}
 		if prev.acc[i].kind != 'v' && cur.acc[i].kind != prev.acc[i].kind && cur.acc[i].kind != 'b' {
-			if !(op.kind == "activate" && res == "ok" && op.creator == i && cur.acc[i].kind == 'v') {
+			if !(res == "ok" && cur.acc[i].kind == 'v' && (op.kind == "activate" && op.creator == i || op.kind == "tx" && op.txActivates(i))) {
 				c.hit("activation_exact", fmt.Sprintf("account %d became %s by `%s`", i, cur.acc[i], line))
 			}
 		}
@@ -825,7 +837,7 @@ func (c *c18Case) monitors(op c18Op, line, res string, prev, cur *c18Obs) {
 		}
 	}
 	for k := range cur.lics {
-		if _, had := prev.lics[k]; !had && !((op.kind == "create" || op.kind == "sale") && res == "ok" && op.clientKey() == k) {
+		if _, had := prev.lics[k]; !had && !(res == "ok" && ((op.kind == "create" || op.kind == "sale") && op.clientKey() == k || op.kind == "tx" && op.txCreates(k))) {
 			c.hit("create_requires_fresh", fmt.Sprintf("licence for %s appeared by `%s`", k, line))
 		}
 		if cur.acc[k.a].kind != 'b' {
@@ -836,6 +848,8 @@ func (c *c18Case) monitors(op c18Op, line, res string, prev, cur *c18Obs) {
 		return
 	}
 	switch op.kind {
+	case "tx":
+		c.txMonitors(op, line, prev, cur)
 	case "create", "sale":
 		c.nLic++
 		amt, denom, months, payer := op.amt, op.denom, op.months, op.creator
@@ -1392,6 +1406,9 @@ func (c *c18Case) genConfig() c18Op {
 }
 
 func (c *c18Case) genOp() c18Op {
+	if c.rnd(100) < 13 {
+		return c.genTx()
+	}
 	switch x := c.rnd(100); {
 	case x < 24:
 		return c.genCreate()
@@ -1694,6 +1711,9 @@ func (e *c18Env) runCase() {
 	} else if c.rnd(8) == 0 {
 		c.directedFeegranterLicensee()
 		steps = 4 + c.rnd(6)
+	}
+	if c.rnd(5) == 0 {
+		c.directedTxOwnership()
 	}
 	for i := 0; i < steps; i++ {
 		op := c.genOp()
